@@ -3,8 +3,12 @@ CONSTANTS
   NT = @NT@
   MaxSends = @MAXSENDS@
   FLimit = @FLIMIT@
+  GLimit = @GLIMIT@
+  HLimit = @HLIMIT@
   ILimit = @ILIMIT@
   Causes = @CAUSES@
+  Kinds = @KINDS@
+  MaxRuns = @MAXRUNS@
 INVARIANTS TypeOK NoError PostOnce CloseOrder Counters Overshoot NoLateEval StatusJustified Drained
 @PROPS@
 CHECK_DEADLOCK TRUE
